@@ -2,6 +2,7 @@
 import random
 
 import orders
+import proto
 import prun
 import vcommon
 from checks import pcommon
@@ -29,6 +30,31 @@ def run(chk, tier, scale=1.0):
     dj = pcommon.collision_jobs(b, chk.seed, PROPS, int((120 if tier == "quick" else 3000) * scale)) + \
          pcommon.reload_jobs(b, chk.seed, PROPS, int((280 if tier == "quick" else 7000) * scale)) + \
          pcommon.late_jobs(b, chk.seed, PROPS, int((60 if tier == "quick" else 1500) * scale))
+    # a SHORT request timeout (2-3 s; the script takes milliseconds): hurry-up while a query is unanswered, then the timer's handler is
+    # fired through the guarded hook - which does nothing if the timer is no longer pending (a verdict that came by itself is fine too)
+    hs = []
+    for k in range(int((12 if tier == "quick" else 240) * scale) or 2):
+        cfgh = proto.Config([("drone.svc", "dronecheck")] + ([("login.svc", "login")] if k % 2 else []), timeout=[3, 2][k % 2])
+        cid = [5, 0, 70000][k % 3]
+        evh = [{"t": "announce", "id": cid, "ip": "192.0.2.5", "port": 1005}, {"t": "host", "id": cid, "name": "h5.example"}, {"t": "ident", "id": cid, "name": "id5"}]
+        if k % 2:
+            evh += [{"t": "password", "id": cid, "text": "+x acct5 pw"}]
+        evh += [{"t": "nick", "id": cid, "name": "n5"}, {"t": "userinfo", "id": cid, "user": "u5", "real": "R"}][:(k // 2) % 3] + [{"t": "hurry", "id": cid}]
+        if (k // 6) % 2:
+            evh += [{"t": "hurry", "id": cid}]
+        evh += [{"t": "timeout", "id": cid}, {"t": "stats"}]
+        hs.append((cfgh.to_json(), evh))
+    # a trailing parameter that is there and empty (`U user :`, an empty real name) is a parameter: the line completes the client
+    for k in range(4):
+        cid = [5, 0, 70000, 9][k]
+        cfge = proto.Config([("drone.svc", "dronecheck")] if k % 2 else [], timeout=3600)
+        eve = [{"t": "announce", "id": cid, "ip": "192.0.2.6", "port": 1006}, {"t": "host", "id": cid, "name": "h6.example"}, {"t": "ident", "id": cid, "name": "id6"},
+               {"t": "nick", "id": cid, "name": "n6"}, {"t": "userinfo", "id": cid, "user": "u6", "real": ""}]
+        if k % 2:
+            eve += [{"t": "reply", "svc": "drone.svc", "tag": "%x_1" % cid, "text": "OK"}]
+        eve += [{"t": "stats"}]
+        hs.append((cfge.to_json(), eve))
+    dj = dj + [dict(build=b, scripts=hs[i:i + 6], props=PROPS) for i in range(0, len(hs), 6)]
     for rs in vcommon.pmap(pcommon.script_worker, dj):
         prun.fold(chk, "C03", rs, crash_is_violation=True)
     # bursts: hundreds of clients in one write, judged when the daemon sleeps with its input drained (no hook, no deadline)
